@@ -43,7 +43,7 @@ use super::tc::{err_name, snapshot};
 use crate::proto::{Case, Out};
 use crate::rng::Rng;
 
-pub const NODE_RULE: &str = "node cases (unit level, REAL RX slot): one real Matter; every op is one atomic section of the receive path on the real RX packet slot - an iteration of process_rx for an unsecured datagram (2-3 peers that share exchange ids; new-session requests, requests, answers, standalone acks, CloseSession and other status reports, duplicates and stale counters, secure datagrams for absent sessions), Exchange::accept / Exchange::recv polled once, sends, Exchange drops, initiate_for_session, secure sessions established, sessions removed under waiting messages and live handles, time steps around the 1000 ms accept deadline, both RX sweeps and the dropped-exchange closer; the driver replays every op with RxPath.step and compares result, table snapshot and RX-slot content";
+pub const NODE_RULE: &str = "node cases (unit level, REAL RX slot): one real Matter; every op is one atomic section of the receive path on the real RX packet slot - an iteration of process_rx for an unsecured datagram (2-3 peers that share exchange ids; new-session requests, requests, answers, standalone acks, CloseSession and other status reports, duplicates and stale counters, secure datagrams for absent sessions), Exchange::accept / Exchange::recv polled once, sends, Exchange drops, initiate_for_session, secure sessions established, sessions removed under waiting messages and live handles, the 28-bit internal session id allocator positioned before its wrap and onto ids still in use, time steps around the 1000 ms accept deadline, both RX sweeps and the dropped-exchange closer; the driver replays every op with RxPath.step and compares result, table snapshot and RX-slot content";
 
 struct Sink;
 impl NetworkSend for Sink {
@@ -345,6 +345,9 @@ pub fn run_node_with(out: &mut Out, f: &mut dyn FnMut(&mut dyn FnMut(&str) -> St
     let mut w = World { matter: &matter, crypto: &crypto, handles: Vec::new() };
     {
         let mut exec = |op: &str| -> String {
+            if std::env::var("VH_NODE_TRACE").is_ok() {
+                eprintln!("{}", op);
+            }
             let (r, shown) = match catch_unwind(AssertUnwindSafe(|| w.op(op))) {
                 Ok(r) => r,
                 Err(_) => ("panic".to_string(), op.to_string()),
@@ -376,6 +379,10 @@ pub fn run_node(out: &mut Out, case: &Case) {
 pub fn gen_node(r: &mut Rng, out: &mut Out, len: usize) {
     run_node_with(out, &mut |exec| {
         exec(&format!("nsetup {} {}", r.range(1, 900), r.range(1, 65535)));
+        // every third case starts just before the wrap of the 28-bit internal session id
+        if r.chance(1, 3) {
+            exec(&format!("nuid {}", 268435455 - r.below(3)));
+        }
         let ports: Vec<u64> = vec![5001, 5002, 5003];
         // per peer: the next message counter; a small pool of exchange ids shared by all peers
         let mut ctrs: Vec<u64> = vec![r.range(100, 1 << 20), r.range(100, 1 << 20), r.range(100, 1 << 20)];
@@ -417,7 +424,21 @@ pub fn gen_node(r: &mut Rng, out: &mut Out, len: usize) {
                 }
                 67..=69 => format!("init {}", pick_uid(r)),
                 70..=71 => format!("est {} {} 0", 6000 + r.below(4), if r.chance(1, 2) { "p" } else { "c" }),
-                72..=73 => format!("rm {}", pick_uid(r)),
+                72 => format!("rm {}", pick_uid(r)),
+                // the id allocator arrives at an id that is still in use (as after a wrap)
+                73 => {
+                    // the allocator arrives at the id of a live session (as after a wrap). Only where no
+                    // `Exchange` handle - live or stale - carries one of the next ids: an id that is reused
+                    // while a stale handle still refers to it is the open finding
+                    // C10-session-id-reuse-stale-handle (corpus), not generated here
+                    let free: Vec<u64> = uids.iter().copied().filter(|u| (0..=200u64).all(|k| !handles.iter().any(|h| h.0 == (*u + k) % (1 << 28)))).collect();
+                    if free.is_empty() || r.chance(1, 2) {
+                        format!("rm {}", pick_uid(r))
+                    } else {
+                        exec(&format!("nuid {}", *r.pick(&free)));
+                        format!("est {} {} 0", 6000 + r.below(4), if r.chance(1, 2) { "p" } else { "c" })
+                    }
+                }
                 74..=81 => if waiting && r.chance(2, 3) { format!("t {}", *r.pick(&[1u64, 400, 999, 1000, 1001])) } else { format!("t {}", *r.pick(&[1u64, 50, 500])) },
                 82..=88 => "swa".into(),
                 89..=94 => "swo".into(),
